@@ -583,7 +583,7 @@ REQUIRED_DEEP = ["uniform_versions", "versions_consecutive", "versions_consecuti
                  "key_agreement_on_web_changes_no_did", "create_with_encryption_key_on_web_creates_nothing",
                  "create_request_order_independent", "ill_formed_option_refuses", "option_names_are_not_dids",
                  "list_dids_sorted_permutation", "list_dids_order_unique", "cleanup_failure_reach",
-                 "sorted_documents_are_a_permutation"]
+                 "sorted_documents_are_a_permutation", "cleanup_failure_resolved"]
 
 
 def pref_of(s):
